@@ -182,6 +182,20 @@ def _compiled_branches(col, rule="C20.R4"):
             if (isinstance(n, ast.Attribute) and A.dotted(n) == "cython.compiled") or \
                     (isinstance(n, ast.Call) and A.call_name(n) in ("is_cythonized", "refs.is_cythonized")):
                 found.setdefault(q, m.loc(n))
+    # a private helper that only documented places call carries their branch
+    callers = {}
+    for m, c, fn in repo.all_functions():
+        q2 = f"{c.name}.{fn.name}" if c else fn.name
+        for call in A.calls(fn):
+            nm = call.func.id if isinstance(call.func, ast.Name) else call.func.attr if isinstance(call.func, ast.Attribute) else None
+            if nm:
+                callers.setdefault(nm, set()).add(q2)
+    for q in list(found):
+        short = q.split(".")[-1]
+        if q not in COMPILED_BRANCHES and short.startswith("_") and not short.startswith("__") and callers.get(short) \
+                and callers[short] <= set(COMPILED_BRANCHES):
+            col.ok(rule, f"{q}#build-dependent-branch", found.pop(q), "code that branches on the build is one of the documented places",
+                   f"private helper called only from {sorted(callers[short])}")
     for q, where in sorted(found.items()):
         col.add(rule, f"{q}#build-dependent-branch", q in COMPILED_BRANCHES, where,
                 "code that branches on the build is one of the documented places (a new branch makes behaviour build dependent)",
@@ -408,6 +422,9 @@ def _unordered(col, rule="C20.R5"):
         if not any(isinstance(n, (ast.For, ast.AsyncFor)) for n in A.walk(fn)):
             continue
         q = f"{c.name}.{fn.name}" if c else fn.name
+        if fn.name.startswith("_") and not fn.name.startswith("__") and fn.name not in ("_dfs",) and any(
+                isinstance(x, (ast.Yield, ast.YieldFrom)) for x in A.walk(fn)):
+            continue        # a private generator helper: its loops are judged in the callers that consume it (dissolved there)
         try:
             sx = sctx(repo, c.name if c else None, fn.name, m.name.split(".", 1)[1] if c is None else None)
         except (AnalysisError, NotImplementedError):
